@@ -410,6 +410,12 @@ def check_C01(ctx: Ctx) -> None:
         ctx.case((c["cls"], c["entry"], o.token(), stmts_text(c["stmts"])), ok_ser and len(c["stmts"]) >= 2,
                  sample=dict(cls=c["cls"], entry=c["entry"], opts=o.describe(), statements=stmts_text(c["stmts"])[:300]))
         if not ok_ser:
+            if c["resp"].startswith("ok ") and not c["entry"].startswith("grouped"):
+                # (grouped entry points guess the stream class from the FIRST sink; an empty first sink followed by quad sinks
+                # is a caller error with its own outcome, not a refusal of well-formed data)
+                # the stream was constructed and then RAISED while writing well-formed statements each of which fits its tables
+                ctx.fail("the writer raised (" + c["resp"].rsplit(" ", 1)[-1] + ") on well-formed statements that fit the lookup tables",
+                         dict(request=c["req"], response=c["resp"][-200:]))
             continue  # construction refused (forbidden type pair etc.) — C06/C13 territory
         eff = _effective_class(c)
         if eff != c["cls"] and c["cls"] != "T":
@@ -433,6 +439,43 @@ def check_C01(ctx: Ctx) -> None:
         reqs.append(f"par graph 0 1 seek {b.hex()}")
         resp.append(impl.run_par("graph", False, "seek", b))
     ctx.corr("PARSE", reqs, resp)
+    # every sizing the property quantifies over can be configured: names 8..4096, prefixes / datatypes 0..4096
+    from pyjelly.options import LookupPreset
+    for pn, pp, pd in [(8, 0, 0), (8, 4096, 0), (4096, 0, 4096), (4095, 4095, 4095), (4096, 4096, 4096), (8, 1, 1), (4096, 1, 0)]:
+        ctx.case(("preset", pn, pp, pd), True)
+        try:
+            LookupPreset(max_names=pn, max_prefixes=pp, max_datatypes=pd)
+        except Exception as e:  # noqa: BLE001
+            ctx.fail(f"LookupPreset({pn}, {pp}, {pd}) is inside the sizing domain but cannot be constructed: {type(e).__name__}", dict(preset=[pn, pp, pd]))
+            continue
+        o = Opts(fs=250, lt=0, gen=True, star=True, delim=True, pn=pn, pp=pp, pd=pd)
+        st = [Triple(IRI("http://a/x"), IRI("http://a/y"), Literal("1", datatype="urn:d") if pd else IRI("http://a/z"))]
+        line, b = impl.run_ser_frames("T", o, st, is_sink=False)
+        if not line.endswith(" end") or [stmt_text(x) for x in real_parse_flat(b)] != [stmt_text(x) for x in expected_events(st, "T")]:
+            ctx.fail(f"round trip with tables ({pn}, {pp}, {pd}) fails: {line[-60:]}", dict(preset=[pn, pp, pd]))
+    # strings that are keys of TWO tables at once ("" is the prefix of <mailto:…> and the name of <http://h/>; a datatype IRI used
+    # as a term when the prefix table is off), with the tables full: the row-local bookkeeping of one table must not leak
+    for i in range(ctx.n(60, 600)):
+        pp = r.choice([0, 1, 2, 3])
+        pd = r.choice([1, 2])
+        o = Opts(fs=r.choice([1, 250]), lt=0, gen=True, star=False, delim=True, pn=8, pp=pp, pd=pd)
+        dts = ["urn:dt:a", "urn:dt:b", "urn:dt:c"]
+        pool = [IRI("mailto:a@x"), IRI("urn:u:1"), IRI("http://h/"), IRI("http://k/"), IRI("http://h/n"), IRI("http://k/n"), IRI("http://m/n")] + [IRI(d) for d in dts]
+        stmts = []
+        for _ in range(r.randint(3, 7)):
+            st = Triple(r.choice(pool), r.choice(pool), r.choice(pool + [Literal("v", datatype=r.choice(dts))]))
+            if gen.fits([st], o.pn, o.pp, o.pd):
+                stmts.append(st)
+        if len(stmts) < 2:
+            continue
+        line, b = impl.run_ser_frames("T", o, stmts, is_sink=False)
+        ctx.case(("shared-keys", o.token(), stmts_text(stmts)), True)
+        ctx.dist["shared_key_cases"] += 1
+        req = f"ser T frames {o.token()} gen:{stmts_text(stmts)}"
+        if not line.endswith(" end"):
+            ctx.fail("the writer raised (" + line.rsplit(" ", 1)[-1] + ") on well-formed statements that fit the lookup tables", dict(request=req))
+        elif [stmt_text(x) for x in real_parse_flat(b)] != [stmt_text(x) for x in expected_events(stmts, "T")]:
+            ctx.fail("round trip differs", dict(request=req))
     # the sizing predicate the theorems assume is the one the generator enforces
     _fits_correspondence(ctx, r)
 
@@ -490,6 +533,7 @@ def check_C03(ctx: Ctx) -> None:
     _c03_version_cases(ctx)
     _c03_frame_length_cases(ctx)
     _c03_graph_api(ctx, ctx.rng("graph-api"))
+    _c03_reused_options(ctx, ctx.rng("reused-options"))
 
 
 def _c03_version_cases(ctx: Ctx) -> None:
@@ -563,6 +607,52 @@ def _c03_frame_length_cases(ctx: Ctx) -> None:
             ctx.fail(f"a frame of exactly {target} bytes is not readable by an independent decoder ({verdict})", dict(request=req[:300], nbytes=len(b)))
         elif impl.run_par("flat", False, "seek", b) != want + " end":
             ctx.fail(f"a frame of exactly {target} bytes does not round-trip", dict(request=req[:300], nbytes=len(b)))
+
+
+def _c03_reused_options(ctx: Ctx, r) -> None:
+    """One SerializerOptions object used for two exports one after the other, the first of which is abandoned half-way (its
+    statement source raises) with rows still pending: what the SECOND export writes must be a valid stream of its own."""
+    import common
+    from pyjelly.integrations.generic import serialize as gser
+
+    class Boom(Exception):
+        pass
+
+    lines, metas = [], []
+    for i in range(ctx.n(40, 400)):
+        cls = r.choice("TQ")
+        o = Opts(fs=r.choice([3, 7, 250]), lt=r.choice([0, {"T": 1, "Q": 2}[cls]]), gen=True, star=True, delim=r.random() < 0.8, pn=16, pp=4, pd=4)
+        first, second = gen_fitting(r, cls, o, r.randint(2, 6)), gen_fitting(r, cls, o, r.randint(1, 6))
+        so = o.real()
+
+        def src(first=first):
+            yield from first
+            raise Boom
+
+        try:
+            for _ in gser.flat_stream_to_frames(src(), so):
+                pass
+        except Boom:
+            pass
+        except Exception as e:  # noqa: BLE001
+            ctx.fail(f"first export raised {type(e).__name__} instead of the source's own exception", dict(opts=o.describe()))
+            continue
+        try:
+            frames = list(gser.flat_stream_to_frames((x for x in second), so))
+        except Exception as e:  # noqa: BLE001
+            ctx.fail(f"second export with the same options object raised {type(e).__name__}", dict(opts=o.describe()))
+            continue
+        b = impl.frames_bytes(frames, o.delim)
+        ctx.case(("reused-options", cls, o.token(), stmts_text(second)), True)
+        ctx.dist["reused_options_after_abandoned_export"] += 1
+        lines.append(spec_line(b, o.delim))
+        metas.append((cls, o, second, b))
+    for (cls, o, second, b), line in zip(metas, common.run_driver(lines)):
+        verdict, evs, _ = parse_spec_response(line)
+        want = " ".join("S" + stmt_text(x) for x in expected_events(second, cls)) or "_"
+        if verdict != "ok" or evs != want:
+            ctx.fail(f"an export that re-uses the options object of an abandoned export is not valid / does not denote its input ({verdict})",
+                     dict(opts=o.describe(), statements=stmts_text(second)[:600], referee=line[:600]))
 
 
 def _c03_graph_api(ctx: Ctx, r) -> None:
@@ -1626,6 +1716,53 @@ def check_C09(ctx: Ctx) -> None:
                     ctx.dist["positioned_seekable"] += 1
                     if got != base:
                         ctx.fail(f"{label}: parses differently from an in-memory buffer of the same bytes", dict(bytes=b.hex(), source=label, got=got[:300], want=base[:300]))
+        # the rdflib integration over the same kind of sources: parse_jelly_flat and the plugin behind Graph.parse(source=…)
+        import rdflib
+
+        import rimpl
+        for i in range(ctx.n(25, 250)):
+            g = gen.G(r, star=False, generalized=False, case_langs=False)
+            g.bnode = lambda: BlankNode(r.choice(["b0", "b1", "n1"]))
+            s = refenc.build_valid_stream(r, g, n_stmts=r.randint(2, 10), physical=1)
+            b = s["bytes"]
+            base = rimpl.run_par_flat(False, "seek", b)
+            if not base.endswith(" end"):
+                continue
+            want_graph = sorted(set(e[1:] for e in base.split(" ")[:-1] if e.startswith("S")))
+            ctx.case(("rdflib-io", b.hex()), True)
+            ends, pos = [], 0
+            for f in s["frames"]:
+                pos += len(refenc.frames_to_bytes([f], True)) if s["delimited"] else len(b)
+                ends.append(pos)
+            for sched in ([1] * 40, [2, 1, 1], [3], [7, 1, 7], [ends[0]] if ends else [5], [max(1, ends[0] - 1)] if ends else [4],
+                          [r.randint(1, 9) for _ in range(20)], [len(b)]):
+                default = r.choice([1, 5, 4096])
+                got = rimpl.rdflib_events_text([])
+                evs, err = [], None
+                try:
+                    from pyjelly.integrations.rdflib.parse import parse_jelly_flat as rflat
+                    for ev in rflat(impl.RawSource(b, list(sched), default=default)):
+                        evs.append(ev)
+                except Exception as e:  # noqa: BLE001
+                    err = e
+                got = rimpl.rdflib_events_text(evs) + " " + ("end" if err is None else "!" + type(err).__name__)
+                ctx.dist["rdflib_raw_schedules"] += 1
+                if got != base:
+                    ctx.fail("rdflib parse_jelly_flat: result depends on read chunking", dict(bytes=b.hex(), schedule=sched[:10], then=default, got=got[:300], want=base[:300]))
+                for buffered in (False, True):
+                    src = impl.RawSource(b, list(sched), default=default)
+                    if buffered:
+                        src = io.BufferedReader(src)
+                    gr = rdflib.Graph()
+                    try:
+                        gr.parse(source=src, format="jelly")
+                        got_g = rimpl.store_quads(gr)
+                    except Exception as e:  # noqa: BLE001
+                        got_g = ["!" + type(e).__name__]
+                    ctx.dist["rdflib_plugin_raw_schedules"] += 1
+                    if sorted(set(got_g)) != want_graph:
+                        ctx.fail("Graph.parse(source=<non-seekable>, format='jelly'): result depends on read chunking",
+                                 dict(bytes=b.hex(), schedule=sched[:10], then=default, buffered=buffered, got=got_g[:5], want=want_graph[:5]))
         # directed header shapes x every way of delivering the first four bytes in short reads
         opt_min = jelly.RdfStreamOptions(physical_type=1, max_name_table_size=8, version=1)
         opt_ten = jelly.RdfStreamOptions(physical_type=1, logical_type=1, max_name_table_size=8, version=1)
@@ -2050,6 +2187,14 @@ def check_C11(ctx: Ctx) -> None:
         cls = r.choice("TTQQG")
         o = rand_opts(r, cls, delimited=True, lt=r.choice([0, {"T": 1, "Q": 2, "G": 2}[cls]]))
         o.fs = r.choice([1, 2, 3, 5, 7, 250])
+        if cls != "G" and r.random() < 0.25:
+            # the frame size given through a ready-made flow object (as the library's own e2e tests do), options.frame_size left alone
+            want_fs = r.choice([1, 2, 3, 5, 7])
+            o.flow = ("flatTriples" if cls == "T" else "flatQuads", 0, want_fs)
+            o.fs = 250
+            o.lt = 0
+        else:
+            want_fs = o.fs
         integ = "rdflib" if i % 4 == 3 else "generic"
         if integ == "rdflib":
             o.gen = o.star = False
@@ -2069,15 +2214,15 @@ def check_C11(ctx: Ctx) -> None:
         if not line.endswith(" end"):
             continue
         fs = stream.flow.frame_size
-        if fs != o.fs:
-            ctx.fail(f"the flow uses frame size {fs}, the caller asked for {o.fs}", dict(opts=o.describe()))
+        if fs != want_fs:
+            ctx.fail(f"the flow uses frame size {fs}, the caller asked for {want_fs}", dict(opts=o.describe()))
         req_text = f"trace[{integ}] {cls} {o.token()} {stmts_text(stmts)}"
         # (i) from the second statement on fewer than frame_size rows are pending at every pull
         for ev in tr:
             if ev.startswith("p"):
                 idx, pend = map(int, ev[1:].split(":"))
-                if idx >= 2 and pend >= o.fs:
-                    ctx.fail(f"{pend} rows pending at pull {idx} with frame_size {o.fs}", dict(request=req_text, trace=line),
+                if idx >= 2 and pend >= want_fs:
+                    ctx.fail(f"{pend} rows pending at pull {idx} with frame_size {want_fs}", dict(request=req_text, trace=line),
                              known=("C11-rdflib-graphs-materialised" if rdflib_graphs else "C11-graphs-lookahead") if cls == "G" else None)
                     break
         # (ii) at most one frame between two pulls (each frame is handed out at once)
@@ -2320,6 +2465,7 @@ def check_C12(ctx: Ctx) -> None:
             ctx.fail("serialization in a thread (1 µs switch interval) differs from serialization alone", dict(thread=t, bad_rounds=bad, rounds=rounds))
     _c12_rdflib_parsers(ctx, r)
     _c12_rdflib_serializers(ctx, r)
+    _c12_rdflib_defaults(ctx, r)
     # (4) fresh processes with different hash seeds
     digest = hashlib.sha256(b"".join(len(b).to_bytes(4, "big") + b for b in alone)).hexdigest()
     code = ("import sys; sys.path.insert(0, %r); import props, hashlib; "
@@ -2392,6 +2538,81 @@ def _c12_rdflib_parsers(ctx: Ctx, r) -> None:
                 if got != w:
                     ctx.fail(f"rdflib {mode} parser of a {cls} stream is affected by another parser active at the same time",
                              dict(bytes=[b.hex() for _, b in files], index=k, got=str(got)[:400], want=str(w)[:400]))
+
+
+def _c12_rdflib_defaults(ctx: Ctx, r) -> None:
+    """rdflib entry points with options=None (everything guessed): the same statements give the same bytes whatever fresh
+    Graph / generator object carries them, in this process and under other hash seeds."""
+    import os
+    import subprocess
+    import sys
+
+    import rdflib
+
+    from pyjelly.integrations.rdflib import serialize as rser
+
+    def one_triple_graph(k):
+        g = rdflib.Graph()
+        g.add((rdflib.URIRef(f"http://d/s{k}"), rdflib.URIRef("http://d/p"), rdflib.Literal(str(k))))
+        return g
+
+    def flat_bytes(k):
+        out = io.BytesIO()
+        data = [(rdflib.URIRef(f"http://d/s{j}"), rdflib.URIRef("http://d/p"), rdflib.Literal(str(j))) for j in range(k)]
+        rser.flat_stream_to_file((x for x in data), out)
+        return out.getvalue()
+
+    def plugin_bytes(k):
+        out = io.BytesIO()
+        one_triple_graph(k).serialize(destination=out, format="jelly")
+        return out.getvalue()
+
+    def grouped_bytes(k):
+        out = io.BytesIO()
+        rser.grouped_stream_to_file((one_triple_graph(j) for j in range(k)), out)
+        return out.getvalue()
+
+    import hashlib
+    for name, fn in (("flat_stream_to_file", flat_bytes), ("Graph.serialize", plugin_bytes), ("grouped_stream_to_file", grouped_bytes)):
+        for k in (1, 3):
+            a, b = fn(k), fn(k)
+            ctx.case(("rdflib-defaults", name, k), True)
+            ctx.dist["rdflib_default_option_runs"] += 2
+            if a != b:
+                ctx.fail(f"rdflib {name} with guessed options: two runs over the same statements write different bytes",
+                         dict(entry=name, first=a.hex()[:300], second=b.hex()[:300]))
+    digest = hashlib.sha256(flat_bytes(3) + plugin_bytes(2) + grouped_bytes(2)).hexdigest()
+    code = ("import sys; sys.path.insert(0, %r); import common, props, framework, hashlib; "
+            "ctx = framework.Ctx('C12', 'quick', 0); print(props._c12_rdflib_defaults_digest())") % os.path.dirname(os.path.abspath(__file__))
+    for hs in ("0", "7", "random"):
+        p_ = subprocess.run([sys.executable, "-c", code], capture_output=True, text=True, env=dict(os.environ, PYTHONHASHSEED=hs), timeout=300, check=False)
+        out = p_.stdout.strip().split("\n")[-1] if p_.stdout.strip() else ""
+        ctx.dist["rdflib_default_hash_seed_runs"] += 1
+        if p_.returncode != 0:
+            raise RuntimeError("C12 subprocess failed: " + p_.stderr[-800:])
+        if out != digest:
+            ctx.fail(f"rdflib entry points with guessed options: bytes differ in a fresh process (PYTHONHASHSEED={hs})", dict(hash_seed=hs))
+
+
+def _c12_rdflib_defaults_digest() -> str:
+    import hashlib
+
+    import rdflib
+
+    from pyjelly.integrations.rdflib import serialize as rser
+
+    def g1(k):
+        g = rdflib.Graph()
+        g.add((rdflib.URIRef(f"http://d/s{k}"), rdflib.URIRef("http://d/p"), rdflib.Literal(str(k))))
+        return g
+
+    out1 = io.BytesIO()
+    rser.flat_stream_to_file(((rdflib.URIRef(f"http://d/s{j}"), rdflib.URIRef("http://d/p"), rdflib.Literal(str(j))) for j in range(3)), out1)
+    out2 = io.BytesIO()
+    g1(2).serialize(destination=out2, format="jelly")
+    out3 = io.BytesIO()
+    rser.grouped_stream_to_file((g1(j) for j in range(2)), out3)
+    return hashlib.sha256(out1.getvalue() + out2.getvalue() + out3.getvalue()).hexdigest()
 
 
 def _c12_rdflib_serializers(ctx: Ctx, r) -> None:
@@ -2516,9 +2737,17 @@ def _overflowing_statement(r, g, cls: str, which: str, k: int):
     elif which == "prefix":
         pf = r.sample(gen.PREFIXES[:4] + ["http://p5/", "http://p6/", "http://p7#", "http://p8/"], min(k, 8))
         iris = [IRI(p + r.choice(["a", "b", "c"])) for p in pf]
+        if len(iris) >= 3 and r.random() < 0.4:
+            # a key that comes back later in the same row (A, B, …, A, …, C): the row's entries are then not simply the
+            # tail of the recency order that starts at the row's first key
+            iris = iris[:-1] + [IRI(pf[r.randrange(len(pf) - 1)] + "again")] + iris[-1:]
+            if cls != "T" and len(iris) == 4:
+                return Quad(*iris)
         st = _pack_iris(iris)
     else:
         iris = [IRI("http://n/" + f"name{j}") for j in r.sample(range(60), k)]
+        if len(iris) >= 3 and r.random() < 0.4:
+            iris = iris[:-1] + [iris[r.randrange(len(iris) - 1)]] + iris[-1:]
         st = _pack_iris(iris)
     if cls != "T":
         st = st + [g.term("g")] if len(st) == 3 else st
@@ -2707,53 +2936,55 @@ def check_C20(ctx: Ctx) -> None:
             metas_acc = acc
             accepted.append(metas_acc)
         ops.append(("flush",))
-        line = impl.run_step(cls, o, ops, integration=integ)
+        info: list = []
+        line = impl.run_step(cls, o, ops, integration=integ, info=info)
         ctx.dist["integration:" + integ] += 1
         reqs.append(f"step {cls} {o.token()} " + " ".join(impl.step_op_token(op) for op in ops))
         resp.append(line)
-        metas.append((cls, o, ops, accepted))
+        metas.append((cls, o, ops, accepted, {d["op"]: d["accepted"] for d in info}))
     # the model marks a rejection that changed encoder state with '~' (the real code cannot tell)
     import common
     model_raw = common.run_driver(reqs)
     for q, a, mraw in zip(reqs, resp, model_raw):
         ctx.compare("SERSTEP", q, a, mraw.replace("~", ""))
     spec_reqs, todo = [], []
-    for (cls, o, ops, accepted), line, mraw, req in zip(metas, resp, model_raw, reqs):
+    for (cls, o, ops, accepted, ginfo), line, mraw, req in zip(metas, resp, model_raw, reqs):
         toks = line.split(" ")[:-1]
         frames = b"".join(bytes.fromhex(f[1:]) for t in toks for f in t.split("!")[0].split("+") if f.startswith("F"))
         n_rej = sum(1 for t in toks if "!" in t)
         ctx.case(req, n_rej > 0, sample=dict(cls=cls, ops=[impl.step_op_token(op)[:60] for op in ops][:8], outcome=line[-80:]))
         ctx.dist[f"rejections:{min(n_rej, 3)}"] += 1
         spec_reqs.append(spec_line(frames, True))
-        todo.append((cls, o, ops, accepted, line, mraw, req, frames))
+        todo.append((cls, o, ops, accepted, ginfo, line, mraw, req, frames))
     got = common.run_driver(spec_reqs)
-    for (cls, o, ops, accepted, line, mraw, req, frames), sline in zip(todo, got):
+    for (cls, o, ops, accepted, ginfo, line, mraw, req, frames), sline in zip(todo, got):
         toks = line.split(" ")[:-1]
         # which data ops were accepted by the real code
         data_ops = [op for op in ops if op[0] in ("t", "q", "g")]
         data_toks = [t for op, t in zip(ops, toks) if op[0] in ("t", "q", "g")]
+        data_pos = [k for k, op in enumerate(ops) if op[0] in ("t", "q", "g")]
         acc_real = []
         first_rej = None
         for idx, (op, t, acc) in enumerate(zip(data_ops, data_toks, accepted)):
             if "!" in t:
                 if first_rej is None:
                     first_rej = idx
-                if op[0] == "g" and acc:
-                    acc_real += acc  # triples of this graph accepted before the rejected one
+                if op[0] == "g":
+                    # the triples of this graph that the stream took before it raised (none if it refused the graph itself)
+                    acc_real += [Quad(*x, op[1]) for x in op[2][: ginfo.get(data_pos[idx], 0)]]
             elif acc:
                 acc_real += acc
             else:
                 acc_real += [Quad(*x, op[1]) for x in op[2]] if op[0] == "g" else [(Quad if op[0] == "q" else Triple)(*op[1])]
-        refuses = first_rej is not None and all("!" in t for t in data_toks[first_rej:])
+        # both alternatives the property allows ("left no trace" / "refuses further use") come to the same thing for what
+        # was written: it is valid and decodes to exactly the statements the stream accepted, in order
         verdict, evs, _ = parse_spec_response(sline)
         want_st = [gen.normalize_stmt(s) for s in acc_real]
         want = "_" if not want_st else " ".join("S" + stmt_text(s) for s in want_st)
-        if (verdict == "ok" and evs == want) or refuses:
+        if verdict == "ok" and evs == want:
             continue
-        dirty = "~" in mraw
-        sig = "C20-state-after-rejection" if (dirty and mraw.replace("~", "") == line and first_rej is not None) else None
         ctx.fail(f"stream corrupt after a rejected statement ({verdict})",
-                 dict(request=req, response=line[:1500], referee=sline[:1200], want=want[:1200]), known=sig)
+                 dict(request=req, response=line[:1500], referee=sline[:1200], want=want[:1200]))
 
 
 # ---------------------------------------------------------------------------------------------
@@ -2807,6 +3038,13 @@ def _hostile(r) -> bytes:
         rows = [opt, jelly.RdfStreamRow(name=jelly.RdfNameEntry(id=r.choice([2**32 - 1, 2**31, 9, 10**6, 4 * 10**6, 10**7]), value="x")),
                 jelly.RdfStreamRow(triple=jelly.RdfTriple(s_iri=jelly.RdfIri(name_id=2**32 - 1, prefix_id=2**32 - 1), p_bnode="b", o_bnode="c"))]
         return refenc.frames_to_bytes([jelly.RdfStreamFrame(rows=rows[: r.randint(1, 3)])], True)
+    if r.random() < 0.25:  # a SECOND options row, in a later row or frame, declaring other (huge) table sizes
+        big = jelly.RdfStreamRow(options=jelly.RdfStreamOptions(
+            physical_type=1, max_name_table_size=r.choice([8, 2**26, 2**31]), max_prefix_table_size=r.choice([8, 2**26, 2**32 - 1]),
+            max_datatype_table_size=r.choice([8, 2**26]), version=1))
+        t = jelly.RdfStreamRow(triple=jelly.RdfTriple(s_bnode="a", p_bnode="b", o_bnode="c"))
+        frames = [jelly.RdfStreamFrame(rows=[opt, t]), jelly.RdfStreamFrame(rows=[big, t])] if r.random() < 0.5 else [jelly.RdfStreamFrame(rows=[opt, t, big, t])]
+        return refenc.frames_to_bytes(frames, True)
     # unknown fields / groups / wrong wire types
     junk = bytes([r.choice([0x0b, 0x0c, 0x13, 0x1b, 0x08, 0x0d, 0x09, 0x7a, 0x0a])]) + bytes([r.randint(0, 255) for _ in range(r.randint(0, 12))])
     return _varint(len(junk)) + junk
@@ -3065,6 +3303,7 @@ def check_C02(ctx: Ctx) -> None:
                 ctx.fail(f"rdflib round trip ({how}) changed the data", dict(request=req, got=got[:20], want=want[:20]))
     ctx.corr("SER-rdflib", reqs, resp)
     _c02_entry_points(ctx, r)
+    _c02_datatype_wrap(ctx, r)
     # non-canonical lexical forms survive (repaired defect: normalize=False)
     from rdflib import XSD, Literal as RL, URIRef
     g = Graph()
@@ -3082,6 +3321,48 @@ def check_C02(ctx: Ctx) -> None:
     ctx.case("noncanonical-lexical", True)
     if sorted(_norm_text(t) for t in rimpl.store_quads(back)) != sorted(_norm_text(t) for t in rimpl.store_quads(g)):
         ctx.fail("non-canonical lexical forms are rewritten by the rdflib round trip", dict(got=rimpl.store_quads(back)))
+
+
+def _c02_datatype_wrap(ctx: Ctx, r) -> None:
+    """Typed literals over 5..7 distinct datatypes through datatype tables of 1..4 slots (the table wraps many times), written
+    by the rdflib serializer from a generator (fixed order) and read back with every rdflib entry point."""
+    import rdflib
+
+    import rimpl
+
+    dts = ["http://www.w3.org/2001/XMLSchema#integer", "http://www.w3.org/2001/XMLSchema#decimal", "http://www.w3.org/2001/XMLSchema#date",
+           "urn:dt:1", "urn:dt:2", "http://dt.example/t3", "http://dt.example/t4"]
+    reqs, resp = [], []
+    for i in range(ctx.n(40, 400)):
+        pd = r.choice([1, 2, 3, 4])
+        o = Opts(fs=r.choice([1, 3, 250]), lt=0, gen=False, star=False, delim=r.random() < 0.8, pn=16, pp=4, pd=pd)
+        use = r.sample(dts, r.randint(pd + 1, len(dts)))
+        data = [(rdflib.URIRef("http://w/s%d" % (j % 3)), rdflib.URIRef("http://w/p"), rdflib.Literal(str(j), datatype=rdflib.URIRef(r.choice(use)), normalize=False))
+                for j in range(r.randint(6, 20))]
+        req, line, b = rimpl.run_serr("T", o, data)
+        reqs.append(req)
+        resp.append(line)
+        ctx.case(("datatype-wrap", req), True)
+        ctx.dist[f"datatype_wrap:pd={pd}"] += 1
+        if not (line.startswith("ok ") and line.endswith(" end")) or not b:
+            ctx.fail(f"rdflib serializer refused typed literals that fit a datatype table of {pd} ({line[-40:]})", dict(request=req[:800]))
+            continue
+        want = sorted(set(rimpl.rdflib_stmt_text(t) for t in data))
+        back, err = rimpl.run_par_graph("seek", b)
+        flat = rimpl.run_par_flat(False, "seek", b)
+        g2 = rdflib.Graph()
+        try:
+            g2.parse(data=b, format="jelly")
+            got3 = rimpl.store_quads(g2)
+        except Exception as e:  # noqa: BLE001
+            got3 = ["!" + type(e).__name__]
+        got1 = rimpl.store_quads(back) if back is not None else ["!" + str(err)]
+        got2 = sorted(set(e[1:] for e in flat.split(" ")[:-1] if e.startswith("S"))) if flat.endswith(" end") else [flat[-40:]]
+        for how, got in (("parse_jelly_to_graph", got1), ("parse_jelly_flat", got2), ("Graph.parse", got3)):
+            if sorted(set(got)) != want:
+                ctx.fail(f"typed literals through a datatype table of {pd} slots: {how} gives back other data",
+                         dict(request=req[:1500], got=sorted(set(got))[:8], want=want[:8]))
+    ctx.corr("SER-rdflib", reqs, resp)
 
 
 def _c02_entry_points(ctx: Ctx, r) -> None:
@@ -3478,4 +3759,62 @@ def check_C15(ctx: Ctx) -> None:
         if gline != rline:
             ctx.fail("generic and rdflib serializers differ on corresponding data with namespace declarations",
                      dict(request=req[:1500], generic=gline[:400], rdflib=rline[:400], frame_size=o.fs))
+    # (c3) several stores through ONE stream (grouped entry points), with bindings shared between the stores
+    from pyjelly.integrations.generic import serialize as gser
+    from pyjelly.integrations.rdflib import serialize as rser
+    for i in range(ctx.n(40, 400)):
+        cls = r.choice("TQ")
+        o = Opts(fs=r.choice([1, 4, 250]), lt=r.choice([0, 3 if cls == "T" else 4]), gen=False, star=False, delim=True, ns=r.random() < 0.7,
+                 pn=r.choice([16, 128]), pp=r.choice([0, 4, 32]), pd=8)
+        stores, sinks = [], []
+        for j in range(r.randint(2, 3)):
+            stmts = _rdf11_statements(r, cls, o, r.randint(1, 5))
+            if not stmts:
+                continue
+            store = _to_store(stmts, cls)
+            store.bind("ex", rdflib.URIRef("http://shared.example/ns#"), override=True, replace=True)
+            if r.random() < 0.5:
+                store.bind(f"own{j}", rdflib.URIRef(f"http://own{j}.example/"), override=True, replace=True)
+            if cls == "T":
+                ordered = [Triple(*(from_rdflib(t) for t in st)) for st in store]
+            else:
+                list(store.graphs())
+                ordered = [Quad(from_rdflib(s_), from_rdflib(p_), from_rdflib(o_), from_rdflib(g_.identifier if isinstance(g_, rdflib.Graph) else g_))
+                           for s_, p_, o_, g_ in store.quads()]
+            stores.append(store)
+            sinks.append(mk_sink(ordered, [(pfx, IRI(str(ns))) for pfx, ns in store.namespaces()]))
+        if len(stores) < 2:
+            continue
+        try:
+            rb = impl.frames_bytes(list(rser.grouped_stream_to_frames((st for st in stores), options=o.real())), True)
+            gb = impl.frames_bytes(list(gser.grouped_stream_to_frames((sk for sk in sinks), options=o.real())), True)
+        except Exception as e:  # noqa: BLE001
+            ctx.fail(f"grouped serialization raised {type(e).__name__}: {e}", dict(opts=o.describe()))
+            continue
+        ctx.case(("ser-pair-grouped", cls, o.token(), tuple(len(sk) for sk in sinks)), True)
+        ctx.dist["serializer_pairs_grouped"] += 1
+        if rb != gb:
+            ctx.fail("generic and rdflib GROUPED serializers differ on corresponding stores sharing one stream",
+                     dict(opts=o.describe(), generic=gb.hex()[:400], rdflib=rb.hex()[:400], stores=[len(sk) for sk in sinks]))
+    # (c4) the SAME generic term objects written twice, under different prefix-table settings: nothing may be remembered on the
+    # terms between two serializations
+    for i in range(ctx.n(40, 400)):
+        cls = r.choice("TQ")
+        o1 = Opts(fs=250, lt=0, gen=False, star=False, delim=True, pn=32, pp=r.choice([4, 16]), pd=8)
+        stmts = _rdf11_statements(r, cls, o1, r.randint(2, 8))
+        if not stmts:
+            continue
+        o2 = Opts(fs=250, lt=0, gen=False, star=False, delim=True, pn=64, pp=0, pd=8)
+        order = [o1, o2] if r.random() < 0.5 else [o2, o1]
+        rdata = [tuple(rimpl.to_rdflib(t) for t in st) for st in stmts]
+        ctx.case(("ser-pair-reuse", cls, stmts_text(stmts)), True)
+        ctx.dist["serializer_pairs_same_terms_twice"] += 1
+        for oo in order:
+            gline, gb2 = impl.run_ser_frames(cls, oo, stmts, is_sink=False)   # the same Triple/IRI objects each time
+            req, rline, rb2 = rimpl.run_serr(cls, oo, rdata)
+            reqs.append(req)
+            resp.append(rline)
+            if gline != rline:
+                ctx.fail("generic and rdflib serializers differ when the same term objects are written a second time under other options",
+                         dict(request=req[:1200], generic=gline[:300], rdflib=rline[:300]))
     ctx.corr("SER-rdflib", reqs, resp)
